@@ -68,6 +68,15 @@ pub fn run(seed: u64, n: usize, out: &mut Out, focus_tags: bool) {
             lines.push(format!("@@||cdn.test/x1$tag={}", r.pick(&tagpool)));
             lines.push(format!("||cdn.test/x2$important,tag={}", r.pick(&tagpool)));
             lines.push(format!("||cdn.test^$csp=tagged-csp,tag={}", r.pick(&tagpool)));
+            // same bucket, same options, different tags (fusion candidates when optimised)
+            let t = r.pick(&["adframe", "adimg"]);
+            lines.push(format!("@@/{}/a$tag=t1", t));
+            lines.push(format!("@@/{}/b$tag=t2", t));
+            lines.push(format!("/{}/a", t));
+            lines.push(format!("/{}/b", t));
+            lines.push(format!("/{}/c$important,tag=t1", t));
+            lines.push(format!("/{}/d$important,tag=t2", t));
+            lines.push(format!("@@/{}/d", t));
         }
         // complete-regex (/re/) rules need a per-query external answer: not used in histories
         lines.retain(|l| !is_complete_regex(l));
@@ -159,6 +168,19 @@ pub fn run(seed: u64, n: usize, out: &mut Out, focus_tags: bool) {
                 reloaded = true;
                 hist.push(json!("serialize+deserialize"));
                 out.case("hreload", "ok", json!({"history": hist.clone()}), true);
+            } else if k < 53 {
+                // load the bytes of another engine: built from the same rules under a different tag set
+                let mut ts: Vec<String> = vec![];
+                for _ in 0..r.below(3) {
+                    ts.push(r.pick(&tagpool).to_string());
+                }
+                let mut producer = Engine::from_rules_parametrised(&accepted, Default::default(), true, optimize);
+                producer.use_tags(&ts.iter().map(|s| s.as_str()).collect::<Vec<_>>());
+                let bytes = producer.serialize_raw().unwrap();
+                engine.deserialize(&bytes).unwrap();
+                reloaded = true;
+                hist.push(json!({"deserialize_from_fresh_engine_with_tags": ts}));
+                out.case(&format!("hload\t{}", hex_list(&ts)), "ok", json!({"history": hist.clone()}), true);
             } else if k < 55 {
                 engine.set_regex_discard_policy(RegexManagerDiscardPolicy { cleanup_interval: Duration::from_nanos(1), discard_unused_time: Duration::from_nanos(0) });
                 hist.push(json!("set_discard_policy(aggressive)"));
@@ -173,7 +195,7 @@ pub fn run(seed: u64, n: usize, out: &mut Out, focus_tags: bool) {
                 // query
                 let (mut u, s, t) = gen::cluster_url(&mut r, &accepted);
                 if r.pct(35) {
-                    u = format!("https://cdn.test/{}", r.pick(&["x1", "x2", "adframe/a.gif", "adimg/x/click?u=1", "track/x", "px/a.png", "adframe^x", "a/adimg.png"]));
+                    u = format!("https://cdn.test/{}", r.pick(&["x1", "x2", "adframe/a.gif", "adimg/x/click?u=1", "track/x", "px/a.png", "adframe^x", "a/adimg.png", "adframe/a", "adframe/b", "adframe/c", "adframe/d", "adimg/a", "adimg/b", "adimg/c", "adimg/d"]));
                 }
                 if !u.is_ascii() {
                     continue;
